@@ -151,7 +151,9 @@ def handleLIN (st : St) (n : Nat) (toks : List String) (reqs : Array LReq) : Res
   if storeKind == "mem" && oneLog && reqs.all (fun r => r.kind == "U") && hung == "0" then
     let ordToks := (toks.dropWhile (fun t => !t.startsWith "order=")).map (fun t =>
       ((t.replace "order=" "").replace "[" "").replace "]" "")
-    if !(ordToks.contains "free") then
+    let late := ((field toks "late").getD "0") != "0"
+    if late then st := st.bump "conc.smallstep.skipped-order-not-fully-controlled"
+    if !(ordToks.contains "free") && !late then
       let lg := (reqs[0]!).log
       let dec (snap : Option Bytes) (i : Nat) : Lin.Dec Bytes String :=
         match reqs[i]? with
